@@ -164,6 +164,15 @@ def enumerated(seed, quick):
             out.append(dict(base, decoder=dec, dparams={}, code=domain.code_case(cls, size),
                             errors='weight12', n_errors=150 if quick else 1500,
                             rseed=seed * 1000 + i))
+    # union-find on larger tori at moderate rates (deep cluster-merge
+    # histories only arise there), several independent error batches
+    for size in ((7, 7), (8, 8), (9, 7), (10, 10), (6, 11)):
+        for shard in range(4 if quick else 24):
+            i += 1
+            out.append(dict(base, decoder='UnionFindDecoder', dparams={},
+                            code=domain.code_case('Toric2DCode', size), errors='random',
+                            rates=[0.1, 0.2, 0.15, 0.2], n_errors=16 if quick else 40,
+                            rseed=seed * 1000 + i))
     # BP-OSD on deformed (non-CSS) small codes, weight <= 2
     for cls, size, dn in (('Toric2DCode', (2, 3), 'XZZX'), ('RotatedPlanar2DCode', (3, 3), 'XY'),
                           ('Planar2DCode', (2, 3), 'XZZX'), ('RotatedPlanar3DCode', (2, 2, 2), 'XZZX'),
